@@ -3,6 +3,9 @@
 import json, os, glob
 HERE = os.path.dirname(os.path.dirname(os.path.abspath(__file__)))
 CHECKS = {
+ "C17": dict(cat="exploration", tech="bounded-exhaustive enumeration of placeholder values x positions x modifiers x pipelines of placeholder items on the real pipeline+backend; decoded query vs reference expansion by truth table",
+             text="Every value of <= 3-4 parts over literals, wildcards, three placeholders and escaped percent signs, in string/keyword/regex position under none/contains/startswith/endswith/all, through every pipeline of <= 2-3 placeholder items (value list x variable tables, wildcard, query expression; no list / include / exclude): the query must decode to the reference expansion, or the rule must fail with a SigmaError naming the unresolved placeholder; %name% text never appears.",
+             note="reference expansion semantics in checks/c17_placeholders.py; verification backend K0 only", ref="§3 C17"),
  "C01": dict(cat="exploration", tech="bounded-exhaustive enumeration of rules x backend configurations on the real converter; emitted query decoded by a target-language parser and compared with a reference formula by exhaustive truth table",
              text="Three completely enumerated sub-products: condition trees x precedence/parenthesize/token/NOT-mode configurations; detection shapes x contexts x in-list knobs x precedence; value kinds x contexts x subsets of optional templates. Every query is parsed back with the configuration's own grammar and must be truth-table equivalent (all 2^n assignments) to the reference formula of the rule dict.",
              note="reference semantics (mc/refsigma, mc/refrule) and decoder (mc/qparse) are trusted and self-tested; full product of the three sub-products not claimed", ref="§3 C01"),
